@@ -43,7 +43,7 @@ def generate(ctx):
                "module": rng.random() < 0.5, "seed": rng.randrange(1 << 31),
                "zeros": rng.choice(["some", "some", "all", "none"]), "ones": rng.random() < 0.6,
                "reconfigure": rng.random() < 0.35, "layout": rng.choice(["row_major", "row_major", "transposed"]),
-               "in_dtype": rng.choice(["float32", "float32", "float64"])}
+               "in_dtype": rng.choice(["float32", "float32", "float64"]), "consume": rng.choice(["stream", "collect"])}
     yield from _saturated(rng, 400 if ctx.tier == "thorough" else 12)
     # silence at zero intensity is a statement about every draw of the generator: very many zero-intensity element-steps
     for i in range(320 if ctx.tier == "thorough" else 24):
@@ -142,7 +142,9 @@ def _run(desc, x, gen):
             fn = nf.poisson_interval_online if online else nf.poisson_interval
             res = fn(fx, steps, dt, generator=gen)
     if online:
-        slices = [s.clone() for s in res]
+        # either consumed as a stream (each slice copied when it arrives) or collected first and used afterwards
+        # (torch.stack(list(encoder(x, online=True)))): every yielded slice is its own step's train either way
+        slices = [s.clone() for s in res] if desc.get("consume", "stream") == "stream" else list(res)
         return slices, len(slices)
     return res, None
 
@@ -164,6 +166,8 @@ def run_case(ctx, desc):
         ctx.count("setter_configured_encoders")
         opk += ".setter_configured"
     outs = []
+    if desc["online"] and desc.get("consume") == "collect":
+        ctx.count("online_runs_collected_before_use")
     if desc.get("layout") == "transposed" and x.ndim >= 2 and not x.is_contiguous():
         ctx.count("intensity_tensors_not_row_major")
     for rep in range(2):
